@@ -381,6 +381,21 @@ def t_noglobal(ck, ctx, prop):
                     ck.ob("T-NOGLOBAL.shared-store", f"{f.qual}:{a.kind} {a.path}", False,
                           "class / module attribute written on the construct/run path is shared by all parser objects",
                           f.loc(a.node))
+        # item store / delete on a module-level container through a bare name (a process-wide cache or registry)
+        for n in ast.walk(f.node):
+            tgts = []
+            if isinstance(n, (ast.Assign, ast.AugAssign)):
+                tgts = n.targets if isinstance(n, ast.Assign) else [n.target]
+            elif isinstance(n, ast.Delete):
+                tgts = n.targets
+            for t in tgts:
+                if isinstance(t, ast.Subscript) and isinstance(t.value, ast.Name):
+                    nm = t.value.id
+                    if not _is_local(f, nm) and (nm in f.module.assigns or (nm in f.module.imports and
+                                                 (m.resolve_symbol(f.module, nm) or ("",))[0] == "value")):
+                        ck.ob("T-NOGLOBAL.shared-store", f"{f.qual}:{nm}[...] = / del", False,
+                              "a module-level container is written on the construct/run path: it is shared by every parser object, every "
+                              "run() and every output mode of the process", f.loc(n))
         # mutation of module-level containers through a bare name
         for n in ast.walk(f.node):
             if isinstance(n, ast.Call) and isinstance(n.func, ast.Attribute) and n.func.attr in MUTATORS:
